@@ -159,16 +159,23 @@ def lake_build(targets, timeout=3000):
     return r.returncode == 0, (r.stdout.decode() + r.stderr.decode())
 
 
-def theorem_names(prop: str):
-    path = os.path.join(LEAN, 'SdcModel', 'Properties', f'{prop}.lean')
-    src = strip_lean_comments(open(path).read())
-    return re.findall(r'^\s*theorem\s+([A-Za-z_][A-Za-z0-9_\.\']*)', src, re.M)
+def theorem_names(prop: str, modules=None):
+    """theorem names of Properties/<module>.lean for every property module of the check (default: Properties/<prop>.lean)"""
+    names = []
+    for mod in (modules or [prop]):
+        path = os.path.join(LEAN, 'SdcModel', 'Properties', f'{mod}.lean')
+        if not os.path.exists(path):
+            continue
+        src = strip_lean_comments(open(path).read())
+        names += re.findall(r'^\s*theorem\s+([A-Za-z_][A-Za-z0-9_\.\']*)', src, re.M)
+    return names
 
 
-def audit(prop: str):
+def audit(prop: str, modules=None):
     """Returns dict theorem -> list of axioms (or None when not found)."""
-    names = theorem_names(prop)
-    src = f'import SdcModel.Properties.{prop}\nopen Sdc.{prop}\n' + ''.join(f'#print axioms {n}\n' for n in names)
+    names = theorem_names(prop, modules)
+    src = ''.join(f'import SdcModel.Properties.{m}\n' for m in (modules or [prop])) + f'open Sdc.{prop}\n' \
+        + ''.join(f'#print axioms {n}\n' for n in names)
     r = subprocess.run(['lake', 'env', 'lean', '--stdin'], cwd=LEAN, input=src.encode(), capture_output=True, timeout=900)
     out = r.stdout.decode() + r.stderr.decode()
     res = {n: None for n in names}
@@ -280,7 +287,9 @@ def run_check(mod, prop, tier, seed):
     except Exception:
         ctx.proof_problems.append('translator failed: ' + traceback.format_exc()[-1500:])
     # 2. build
-    targets = [f'SdcModel.Properties.{prop}'] + list(getattr(mod, 'DRIVERS', []))
+    pmods = list(getattr(mod, 'PROPERTY_MODULES', [prop]))
+    pmods = [m for m in pmods if os.path.exists(os.path.join(LEAN, 'SdcModel', 'Properties', f'{m}.lean'))]
+    targets = [f'SdcModel.Properties.{m}' for m in pmods] + list(getattr(mod, 'DRIVERS', []))
     ok, log = lake_build(targets)
     driver_ok = True
     if not ok:
@@ -292,10 +301,10 @@ def run_check(mod, prop, tier, seed):
             if not driver_ok:
                 ctx.proof_problems.append('driver build failed: ' + dlog[-2000:])
     # 3. audit + hygiene
-    names = theorem_names(prop)
+    names = theorem_names(prop, pmods)
     ctx.obligations = len(names)
     if ok:
-        ax, alog = audit(prop)
+        ax, alog = audit(prop, pmods)
         ctx.axioms = ax
         for n, a in ax.items():
             if a is None:
@@ -304,11 +313,11 @@ def run_check(mod, prop, tier, seed):
                 ctx.proof_problems.append(f'audit: theorem {n} depends on {a}')
             else:
                 ctx.discharged += 1
-    bad = hygiene([f'SdcModel.Properties.{prop}'] + ['Driver.' + d.split('_')[1].upper() for d in getattr(mod, 'DRIVERS', [])])
+    bad = hygiene([f'SdcModel.Properties.{m}' for m in pmods] + ['Driver.' + d.split('_')[1].upper() for d in getattr(mod, 'DRIVERS', [])])
     if bad:
         ctx.proof_problems.append('hygiene: ' + '; '.join(bad[:10]))
     if tier == 'thorough' and ok:
-        r = subprocess.run(['lake', 'env', 'leanchecker', f'SdcModel.Properties.{prop}'], cwd=LEAN, capture_output=True,
+        r = subprocess.run(['lake', 'env', 'leanchecker'] + [f'SdcModel.Properties.{m}' for m in pmods], cwd=LEAN, capture_output=True,
                            timeout=3000)
         ctx.notes['leanchecker_exit'] = r.returncode
         if r.returncode != 0:
